@@ -204,7 +204,8 @@ def main(argv=None):
     for idx, rec, path in confirmed:
         print(f"VIOLATION property={pid} replay={path}")
         msg = str(rec.get("msg", ""))
-        print("  case#%d sub=%s tags=%s\n  %s" % (idx, rec.get("sub"), json.dumps(tol.jsonable(rec.get("tags"))), msg[:1200]))
+        msg = msg[:1200] if rec.get("sub") != "crash" else msg[-700:]
+        print("  case#%d sub=%s tags=%s\n  %s" % (idx, rec.get("sub"), json.dumps(tol.jsonable(rec.get("tags"))), msg))
     for idx, rec in flaky:
         print(f"HARNESS-NONDETERMINISM property={pid} case#{idx} sub={rec.get('sub')}: failed in a worker, passed when re-executed")
 
